@@ -1,4 +1,5 @@
 """C19 - do choose/shuffle and run-time random values follow the stated probabilities."""
+import os
 import random
 
 from symx import engine as E
@@ -158,8 +159,8 @@ def harness_for(name, P, horizon):
             if len(draws) == len(D.DRAWN):
                 for (t, v), c in zip(D.DRAWN, draws):
                     ctx.check("value-seen-by-the-program-is-the-draw", E.sym_and(v == c[4], t == c[3]))
-            kw = [c for c in calls if c[0] == "choices" and len(c) > 4 and any(r[0] == "choices" and r[2] == c[2] for r in req)]
-            if kw and len(kw) == len(D.DRAWN):
+            kw = [calls[k] for k in range(n) if req[k][0] == "choices" and len(req[k]) > 3 and calls[k][0] == "choices"]
+            if kw and len(kw) == len(D.DRAWN) and not draws:
                 for (t, v), c in zip(D.DRAWN, kw):
                     ctx.check("value-seen-by-the-program-is-the-chosen-element", v == c[4][c[3]] and t == c[2])
 
@@ -194,9 +195,45 @@ def obligations(tier, seed):
     enc = [I.Invocable._invokeSubBehavior, I.Invocable._isEnabledForAgent, DI.Distribution.__new__, DI.Options.__init__,
            DI.DiscreteRange.sampleGiven, DI.MultiplexerDistribution.sampleGiven]
     horizon = 3 if tier == "quick" else 4
-    hz = lambda name: (2 if tier == "quick" else 3) if name == "choose-weighted-3" else horizon
+    hz = lambda name: (2 if tier == "quick" else 3) if (name == "choose-weighted-3" or name.startswith("generated")) else horizon
     return [Obligation(name, harness_for(name, P, hz(name)), D.program_text(P).replace("\n", " ; ")[:400],
                        {"steps": hz(name), "items": "<=3", "preconditions": "step-indexed symbolic tables", "rng": "all outcomes (symbolic)"},
                        enc, ["random.choices / random.randint: logging models returning symbolic values"],
                        opts=dict(total_timeout=500.0, per_path_timeout=40.0), setup=warm(name, P))
-            for name, P in corpus().items()]
+            for name, P in {**corpus(), **generated(seed, int(os.environ.get("C19_GENERATED", "4" if tier == "quick" else "40")))}.items()]
+
+
+# ------------------------------------------------------------------ generated choose / shuffle programs
+def gen_program(rnd):
+    names = ["A", "B", "C"][: rnd.choice([2, 3, 3])]
+    conds = []
+    behaviors = {}
+    for n in names:
+        pre = None
+        if rnd.random() < 0.6:
+            pre = "p" + n.lower()
+            conds.append(pre)
+        body = [T(f"{n.lower()}{i}") for i in range(rnd.choice([1, 1, 2]))]
+        behaviors[n] = dict(pre=[pre] if pre else [], inv=[], body=body)
+    weighted = rnd.random() < 0.6
+    items = [(n, rnd.randint(1, 7) if weighted else None) for n in names]
+    rnd.shuffle(items)
+    kind = rnd.choice(["dochoose", "doshuffle"])
+    stmt = (kind, items)
+    shape = rnd.random()
+    if shape < 0.4:
+        top = [("loop", [stmt])]
+    elif shape < 0.7:
+        top = [stmt, ("loop", [T("done")])]
+    elif shape < 0.85:
+        top = [T("first"), stmt, ("draw", 0, 3), ("loop", [T("done")])]
+    else:
+        top = [("loop", [stmt, ("if", "again", [("draw", 1, 2)]), T("between")])]
+        conds.append("again")
+    behaviors["Top"] = top
+    return dict(agents=[("a0", "Top")], behaviors=behaviors, monitor=None, record=False, compose=None, values={}, conds=conds)
+
+
+def generated(seed, n):
+    rnd = random.Random(1900 + seed)
+    return {f"generated[{seed}.{i}]": gen_program(rnd) for i in range(n)}
